@@ -67,9 +67,21 @@ func (e *env) localByName(name string) *sym {
 		return nil
 	}
 	var best *ssa.DebugRef
+	var bestPhi *ssa.Phi
+	var bestBlock *ssa.BasicBlock
 	bestIdx := -1
 	for _, b := range top.fn.Blocks {
 		for i, in := range b.Instrs {
+			if phi, isPhi := in.(*ssa.Phi); isPhi && phi.Comment == name {
+				dom := (b == e.pointBlock && i < e.pointIdx) || (b != e.pointBlock && b.Dominates(e.pointBlock))
+				if _, have := top.vals[phi]; dom && have {
+					later := bestBlock == nil || (bestBlock == b && i > bestIdx) || (bestBlock != b && bestBlock.Dominates(b))
+					if later {
+						best, bestPhi, bestBlock, bestIdx = nil, phi, b, i
+					}
+				}
+				continue
+			}
 			d, ok := in.(*ssa.DebugRef)
 			if !ok || d.Object() == nil || d.Object().Name() != name {
 				continue
@@ -88,11 +100,14 @@ func (e *env) localByName(name string) *sym {
 					continue
 				}
 			}
-			later := best == nil || (best.Block() == b && i > bestIdx) || (best.Block() != b && best.Block().Dominates(b))
+			later := bestBlock == nil || (bestBlock == b && i > bestIdx) || (bestBlock != b && bestBlock.Dominates(b))
 			if later {
-				best, bestIdx = d, i
+				best, bestPhi, bestBlock, bestIdx = d, nil, b, i
 			}
 		}
+	}
+	if bestPhi != nil {
+		return top.vals[bestPhi]
 	}
 	if best == nil {
 		return nil
